@@ -7,6 +7,7 @@ import (
 	"strings"
 	"time"
 
+	aftpb "github.com/openconfig/gribi/v1/proto/gribi_aft"
 	spb "github.com/openconfig/gribi/v1/proto/service"
 	"github.com/openconfig/gribigo/constants"
 	"github.com/openconfig/gribigo/rib"
@@ -94,12 +95,16 @@ type env struct {
 	hookErr       []string
 	resolvedCalls int
 	noKnownSoft   bool
+	collecting    int
+	pendingAbort  bool
 }
 
 func (e *env) probe(name string) { e.sim.Probe(name) }
 
 // report records a violation. Violations matching a known finding are kept
 // but do not abort the run when the caller can resynchronise (soft=true).
+// Inside a checkpoint (a batch of independent checks at one quiescent point)
+// every check runs and the run is aborted at the end of the batch.
 func (e *env) report(prop, class, sig, detail string, soft bool) {
 	v := Violation{Prop: prop, Class: class, Sig: sig, Detail: detail, Step: e.step}
 	if e.known != nil {
@@ -110,7 +115,21 @@ func (e *env) report(prop, class, sig, detail string, soft bool) {
 	if v.Known != "" && soft && !e.noKnownSoft {
 		return
 	}
+	if e.collecting > 0 {
+		e.pendingAbort = true
+		return
+	}
 	panic(abortRun{})
+}
+
+// checkpoint runs independent checks; all of them report before the run stops.
+func (e *env) checkpoint(f func()) {
+	e.collecting++
+	f()
+	e.collecting--
+	if e.collecting == 0 && e.pendingAbort {
+		panic(abortRun{})
+	}
 }
 
 func newServer(cfg *ScenCfg, e *env) *server.Server {
@@ -364,6 +383,10 @@ func (e *env) applyVerdict(rec *opRec, res *spb.AFTResult, foreign bool) {
 
 // afterQuiescence runs the checks that need an exact quiescent point.
 func (e *env) afterQuiescence(s *session) {
+	e.checkpoint(func() { e.afterQuiescenceChecks(s) })
+}
+
+func (e *env) afterQuiescenceChecks(s *session) {
 	// operations without any result
 	var ids []uint64
 	for id := range e.allOps {
@@ -392,7 +415,10 @@ func (e *env) afterQuiescence(s *session) {
 			rec.wasHeld = true
 			modelHeld = append(modelHeld, id)
 		case VProgram:
-			e.report("C02", "resolvable-left-held", kindSig(rec.op)+" unanswered although resolvable", describeOp(rec.op), false)
+			if rec.op.GetOp() != spb.AFTOperation_DELETE {
+				e.report("C02", "resolvable-left-held", kindSig(rec.op)+" unanswered although resolvable", describeOp(rec.op), false)
+			}
+			e.report("C06", "unanswered", "valid, resolvable operation got no result", describeOp(rec.op), false)
 		case VFail:
 			if why == "replace of missing entry" && e.model.FwdRefs {
 				if _, en, _ := e.model.Analyse(rec.op); en != nil && !e.model.Resolvable(en) {
@@ -432,7 +458,7 @@ func (e *env) afterQuiescence(s *session) {
 		e.report("C02", "held-set-mismatch", sig, fmt.Sprintf("implementation holds %v, model holds %v", implHeld, modelHeld), true)
 	}
 	e.compareState("rib-contents")
-	e.checkRefCounts()
+	e.checkRefCounts("C03")
 	if !e.perNIFlush {
 		if d := e.model.Dangling(); len(d) > 0 {
 			e.report("C02", "dangling-reference", "installed entry references a missing entry", fmt.Sprint(d), false)
@@ -458,13 +484,9 @@ func diffIDs(a, b []uint64) []uint64 {
 
 // compareState compares RIBContents with the model (C01).
 func (e *env) compareState(via string) {
-	rc, err := e.srv.VerifRIB().RIBContents()
-	if err != nil {
-		e.report("C01", "rib-contents-error", "RIBContents failed", err.Error(), false)
-	}
-	snap, err := snapFromRIBContents(rc)
-	if err != nil {
-		e.report("C07", "payload-unmarshalable", "installed entry cannot be rendered as proto", err.Error(), false)
+	snap := e.implSnapshot()
+	if snap == nil {
+		return
 	}
 	e.reportDiffs("C01", via, diffSnap(modelSnapshot(e.model, "", -1), snap))
 }
@@ -489,8 +511,38 @@ func (e *env) reportDiffs(prop, via string, ds []Diff) {
 	}
 }
 
-// checkRefCounts compares the reference counters with the referrers (C03).
-func (e *env) checkRefCounts() {
+// checkRefCounts compares the reference counters (hook) with the referrers
+// counted from the implementation's own installed entries (RIBContents).
+func (e *env) checkRefCounts(props ...string) {
+	snap := e.implSnapshot()
+	if snap == nil {
+		return
+	}
+	nhgRefs := map[Key][]Key{}
+	nhRefs := map[Key][]Key{}
+	var keys []Key
+	for k := range snap {
+		keys = append(keys, k)
+	}
+	sortKeys(keys)
+	for _, k := range keys {
+		switch t := snap[k].(type) {
+		case *aftpb.Afts_NextHopGroupKey:
+			for _, nh := range t.GetNextHopGroup().GetNextHop() {
+				r := Key{NI: k.NI, Kind: KNH, ID: nh.GetIndex()}
+				nhRefs[r] = append(nhRefs[r], k)
+			}
+		case *aftpb.Afts_Ipv4EntryKey:
+			r := Key{NI: orStr(t.GetIpv4Entry().GetNextHopGroupNetworkInstance().GetValue(), k.NI), Kind: KNHG, ID: t.GetIpv4Entry().GetNextHopGroup().GetValue()}
+			nhgRefs[r] = append(nhgRefs[r], k)
+		case *aftpb.Afts_Ipv6EntryKey:
+			r := Key{NI: orStr(t.GetIpv6Entry().GetNextHopGroupNetworkInstance().GetValue(), k.NI), Kind: KNHG, ID: t.GetIpv6Entry().GetNextHopGroup().GetValue()}
+			nhgRefs[r] = append(nhgRefs[r], k)
+		case *aftpb.Afts_LabelEntryKey:
+			r := Key{NI: orStr(t.GetLabelEntry().GetNextHopGroupNetworkInstance().GetValue(), k.NI), Kind: KNHG, ID: t.GetLabelEntry().GetNextHopGroup().GetValue()}
+			nhgRefs[r] = append(nhgRefs[r], k)
+		}
+	}
 	rcs := e.srv.VerifRIB().VerifRefCounts()
 	for _, ni := range e.model.SortedNIs() {
 		c := rcs[ni]
@@ -501,14 +553,14 @@ func (e *env) checkRefCounts() {
 		for id := range c.NextHop {
 			ids[id] = true
 		}
-		for k := range e.model.Tab {
-			if k.NI == ni && (k.Kind == KNH || k.Kind == KNHG) {
+		for k := range nhgRefs {
+			if k.NI == ni {
 				ids[k.ID] = true
 			}
 		}
-		for _, en := range e.model.Tab {
-			if en.NHGNI == ni {
-				ids[en.NHG] = true
+		for k := range nhRefs {
+			if k.NI == ni {
+				ids[k.ID] = true
 			}
 		}
 		var sorted []uint64
@@ -517,22 +569,31 @@ func (e *env) checkRefCounts() {
 		}
 		sort.Slice(sorted, func(i, j int) bool { return sorted[i] < sorted[j] })
 		for _, id := range sorted {
-			if want, got := len(e.model.Referrers(Key{NI: ni, Kind: KNHG, ID: id})), int(c.NextHopGroup[id]); want != got {
+			for _, kind := range []Kind{KNHG, KNH} {
+				refs, got, what := nhgRefs[Key{NI: ni, Kind: KNHG, ID: id}], int(c.NextHopGroup[id]), "nhg"
+				if kind == KNH {
+					refs, got, what = nhRefs[Key{NI: ni, Kind: KNH, ID: id}], int(c.NextHop[id]), "nh"
+				}
+				if len(refs) == got {
+					continue
+				}
 				dir := "high"
-				if got < want {
+				if got < len(refs) {
 					dir = "low"
 				}
-				e.report("C03", "refcount-mismatch", "nhg counter too "+dir, fmt.Sprintf("NI %s NHG %d: counter %d, referrers %v", ni, id, got, e.model.Referrers(Key{NI: ni, Kind: KNHG, ID: id})), false)
-			}
-			if want, got := len(e.model.Referrers(Key{NI: ni, Kind: KNH, ID: id})), int(c.NextHop[id]); want != got {
-				dir := "high"
-				if got < want {
-					dir = "low"
+				for _, p := range props {
+					e.report(p, "refcount-mismatch", what+" counter too "+dir, fmt.Sprintf("NI %s %s %d: counter %d, installed referrers %v", ni, what, id, got, refs), false)
 				}
-				e.report("C03", "refcount-mismatch", "nh counter too "+dir, fmt.Sprintf("NI %s NH %d: counter %d, referrers %v", ni, id, got, e.model.Referrers(Key{NI: ni, Kind: KNH, ID: id})), false)
 			}
 		}
 	}
+}
+
+func orStr(a, b string) string {
+	if a != "" {
+		return a
+	}
+	return b
 }
 
 // ---------------------------------------------------------------------------
